@@ -125,21 +125,29 @@ CharKeys == %(chars)s
 ModKeys == %(mods)s
 QMax == %(qmax)d
 MaxEp == %(maxep)d
+MaxMod == %(maxmod)d
+MaxIdle == %(maxidle)d
+MaxHold == %(maxhold)d
 MonParams == %(monparams)s
 
-\* q: the identity layout's event queue (one event leaves it per tick); np: character presses in the current hold
+\* q: the identity layout's event queue (one event leaves it per tick); np = <<character presses, modifier presses, idle ticks>> so far
+\* (the environment: at most MaxEp character presses, MaxMod modifier presses and MaxIdle ticks with an empty queue in a history)
 VARIABLES z, q, phys, np, mon, hist
-Init == z = ZInit /\ q = <<>> /\ phys = {} /\ np = 0 /\ mon = Mon!MonInit(MonParams) /\ hist = <<>>
+Init == z = ZInit /\ q = <<>> /\ phys = {} /\ np = <<0, 0, 0>> /\ mon = Mon!MonInit(MonParams) /\ hist = <<>>
 MonOk == mon.err = ""
 CanInput == MonOk /\ Len(q) < QMax
-Press(c) == /\ CanInput /\ c \notin phys /\ (c \in CharKeys => np < MaxEp)
+\* a bound of 0 means "not bounded" (and the counter is not kept)
+Cnt(i, bound) == IF bound = 0 THEN 0 ELSE np[i] + 1
+Press(c) == /\ CanInput /\ c \notin phys
+            /\ (IF c \in CharKeys THEN (MaxEp = 0 \/ np[1] < MaxEp) /\ Cardinality(phys \cap CharKeys) < MaxHold
+                                   ELSE (MaxMod = 0 \/ np[2] < MaxMod))
             /\ q' = Append(q, <<"d", c>>) /\ phys' = phys \cup {c}
-            /\ np' = IF c \in CharKeys THEN np + 1 ELSE np
+            /\ np' = IF c \in CharKeys THEN <<Cnt(1, MaxEp), np[2], np[3]>> ELSE <<np[1], Cnt(2, MaxMod), np[3]>>
             /\ mon' = Mon!MonIn(mon, [e |-> "d", c |-> c, out |-> <<>>])
             /\ hist' = Append(hist, <<"d", c>>) /\ UNCHANGED z
 Release(c) == /\ CanInput /\ c \in phys
               /\ q' = Append(q, <<"u", c>>) /\ phys' = phys \ {c}
-              /\ np' = IF phys' \cap CharKeys = {} THEN 0 ELSE np
+              /\ np' = np
               /\ mon' = Mon!MonIn(mon, [e |-> "u", c |-> c, out |-> <<>>])
               /\ hist' = Append(hist, <<"u", c>>) /\ UNCHANGED z
 \* src: kanata/mod.rs:846-863 tick_states: handle_keystate_changes (one queued event) then zippy_tick
@@ -148,11 +156,12 @@ StepTick == LET r == IF q = <<>> THEN [z |-> z, out |-> <<>>]
                 z1 == ZTick(r.z)
                 q1 == IF q = <<>> THEN q ELSE Tail(q)
             IN [z |-> z1, q |-> q1, out |-> r.out, idle |-> q1 = <<>> /\ ZIsIdle(z1)]
-Tick == /\ MonOk
+Tick == /\ MonOk /\ (q = <<>> => MaxIdle = 0 \/ np[3] < MaxIdle)
+        /\ np' = IF q = <<>> THEN <<np[1], np[2], Cnt(3, MaxIdle)>> ELSE np
         /\ LET s == StepTick IN
            /\ z' = s.z /\ q' = s.q
            /\ mon' = Mon!MonTick(mon, s.out, s.idle, s.idle)
-        /\ UNCHANGED <<phys, np>>
+        /\ UNCHANGED phys
         /\ hist' = Append(hist, <<"t">>)
 Next == (\E c \in CharKeys \cup ModKeys : Press(c) \/ Release(c)) \/ Tick
 View == <<z, q, phys, np, mon>>
@@ -206,22 +215,22 @@ def replay_zippy_edges(jobfile, edges_file, shards=None):
     return tot
 
 
-def check_instance(name, desc, wd, qmax=1, maxep=4, bug="none", edges=True, workers=12, timeout=900, replay=True):
+def check_instance(name, desc, wd, qmax=1, maxep=0, maxmod=0, maxidle=0, maxhold=3, since_cap=0, bug="none", edges=True, workers=8, timeout=900, replay=True):
     """TLC exhaustive run (binding D) + edge-cover replay on the real code (binding B)."""
     t0 = time.time()
     C = cfgdesc.code
     dump, jobfile = zippy_dump(desc, wd, name)
     if dump["deadline"] != desc["D"] or dump["wait_enable"] != desc["W"]:
         raise ToolError("parser read other zippy options than written: %r" % dump)
-    consts = zippy_constants(dump, since_cap=desc["W"] + desc["D"] + 4, bug=bug)
-    params = params_of(desc, fwin=10000, qcap=desc["W"] + 2)
+    consts = zippy_constants(dump, since_cap=since_cap, bug=bug)
+    params = params_of(desc, fwin=10000, qcap=desc["W"] + 1)
     mod = "MC_c20_" + name
     text = MC_TEMPLATE % dict(mod=mod, consts=consts, chars=tla_val(set(C(k) for k in desc["keys"])),
-                              mods=tla_val(set(C(k) for k in desc["mods"])), qmax=qmax, maxep=maxep,
+                              mods=tla_val(set(C(k) for k in desc["mods"])), qmax=qmax, maxep=maxep, maxmod=maxmod, maxidle=maxidle, maxhold=maxhold,
                               monparams=tla_val(params))
     open(os.path.join(wd, mod + ".tla"), "w").write(text)
     open(os.path.join(wd, mod + ".cfg"), "w").write(MC_CFG % dict(edge="ACTION_CONSTRAINT Edge" if edges else ""))
-    r = run_tlc(wd, mod, workers=workers, timeout=timeout, heap="8g")
+    r = run_tlc(wd, mod, workers=workers, timeout=timeout, heap="4g")
     if r["rc"] == 124:
         raise ToolError("TLC timed out on %s" % mod)
     if r["error"] and not r["violated"]:
